@@ -20,7 +20,7 @@ LEVEL = 'other'
 EXPLANATION = 'structural/def-use analysis of find_root and quad: which function is differentiated in which argument at which point, sign tables, order agreement of gradient and data lists'
 LEVEL_TEXT = ('decides only the wiring of the error propagation in find_root (implicit function: -(df/dd)/(df/dx) at the root, consistent argument swap, value carrier) and quad '
               '(Leibniz rule: -f(a) / +f(b) by one index, integrals of df/dp_i over the same limits, gradient order = data order, value carrier). The accuracy of fsolve / quad is not decided.')
-TECHNIQUE = 'def-use and call-shape analysis with sympy evaluation of the sign/index tables and value carriers'
+TECHNIQUE = 'def-use and call-shape analysis (including the dataflow from the data argument to the start value of the root search) with sympy evaluation of the sign/index tables and value carriers'
 
 
 def jac_call(mod, node):
